@@ -102,6 +102,10 @@ def pyExpSub_ar2 (e : ArExp_ar2) (n : Nat) : ArExp_ar2 := { e with val := e.val 
 def pyRange_ar2 (x : ArExp_ar2) : Except Err (List Nat) :=
   if x.isInt then .ok (List.range x.val.floor.toNat) else .error .type
 
+/-- `range(a, x)` for a non-negative int literal `a`: `TypeError` unless `x` is an int; the ints `a … x-1` (none for `x ≤ a`) -/
+def pyRangeFrom_ar2 (a : Nat) (x : ArExp_ar2) : Except Err (List Nat) :=
+  if x.isInt then .ok (List.range' a (x.val.floor.toNat - a)) else .error .type
+
 /-- `a / b` on coefficients: `ZeroDivisionError` for `b == 0` -/
 def pyDiv_ar2 (a b : Rat) : Except Err Rat := if b = 0 then .error .zerodiv else .ok (a / b)
 
